@@ -35,7 +35,7 @@ def doji(
     if lookback is None:
         return _doji(index)
 
-    return any(_doji(i) for i in range(len(candles) - lookback, len(candles)))
+    return any(_doji(i) for i in range(max(index - lookback + 1, 0), index + 1))
 
 
 def dojistar(
@@ -67,7 +67,7 @@ def dojistar(
     if lookback is None:
         return _dojistar(index)
 
-    return any(_dojistar(i) for i in range(len(candles) - lookback, len(candles)))
+    return any(_dojistar(i) for i in range(max(index - lookback + 1, 0), index + 1))
 
 
 def hammer(
@@ -98,7 +98,7 @@ def hammer(
     if lookback is None:
         return _hammer(index)
 
-    return any(_hammer(i) for i in range(len(candles) - lookback, len(candles)))
+    return any(_hammer(i) for i in range(max(index - lookback + 1, 0), index + 1))
 
 
 def inverted_hammer(
@@ -129,4 +129,4 @@ def inverted_hammer(
     if lookback is None:
         return _invhammer(index)
 
-    return any(_invhammer(i) for i in range(len(candles) - lookback, len(candles)))
+    return any(_invhammer(i) for i in range(max(index - lookback + 1, 0), index + 1))
